@@ -21,7 +21,8 @@ THR == /\ Ev("HR") /\ HReply /\ E.j = nrep'
 (* the client's receive yields reply j: same token, continues on all but the last; an error *)
 (* reply arrives as an error value with exactly that name (typed for the standard ones)     *)
 TCG == /\ Ev("CG") /\ CGet /\ E.j = ngot'
-       /\ E.tok = RTok(ci, ngot') /\ E.continues = ContinuesOf(ngot')
+       \* (a Call with a nil out-value still consumes exactly its reply; only the value is not observable)
+       /\ ((E.nilout /\ E.kind = "reply") \/ E.tok = RTok(ci, ngot')) /\ E.continues = ContinuesOf(ngot')
        /\ E.kind = (IF ngot' = Total(Cur) THEN Cur.fin ELSE "reply")
        /\ E.name_ok
 THRet == Ev("HRET") /\ HReturn
